@@ -307,16 +307,20 @@ class Plan:
                      f"`{r}` is rewritten to y {op2} {c3s} but {c3s} is not a value of {t}", r, impl=impl)
         if c3 is None:
             return
-        # Props.C38.chain_*_unique: an in-range c3 gives the same value for every y  iff  c3 = Spec (c1 + c2)
-        self.ask("spec b %s + %s %s" % (t, render(c1), render(c2)),
-                 lambda s, r=r, c3=c3, ok=ok: (ok and s != "ok undef" and s != f"ok {c3}") and ctx.fail(
-                     f"on_block:chain{op2}:value-differs", f"`{r}` is rewritten to y {op2} {c3}; equal for all y only with {s[3:]}", r, impl=impl, spec=s))
-        if v1 is not None and v2 is not None and ok:
-            for y in ys:
+        same = op1 == op2 and op1 in ("+", "-")
+        if same:
+            # Props.C38.chain_unique: an in-range c3 gives the same value for every y  iff  c3 = Spec (c1 + c2)
+            self.ask("spec b %s + %s %s" % (t, render(c1), render(c2)),
+                     lambda s, r=r, c3=c3, ok=ok: (ok and s != "ok undef" and s != f"ok {c3}") and ctx.fail(
+                         f"on_block:chain{op2}:value-differs", f"`{r}` is rewritten to y {op2} {c3}; equal for all y only with {s[3:]}", r, impl=impl, spec=s))
+        if v1 is not None and v2 is not None and ok and op1 in SPEC_OPS and op2 in SPEC_OPS:
+            for y in (ys if same else ys + [2, 3, 5, 7]):
+                if not in_range(t, y):
+                    continue
                 ctx.count("eval_chain_points")
-                self.ask(f"specchain {t} {op2} {y} {v1} {v2} {c3}",
-                         lambda s, r=r, y=y, c3=c3: (len(set(s.split()[1:])) != 1) and ctx.fail(
-                             f"on_block:chain{op2}:value-differs", f"`{r}` with y={y}: before/after = {s[3:]} (c3={c3})", r, y=y, spec=s))
+                self.ask(f"specchain {t} {op1} {op2} {y} {v1} {v2} {c3}",
+                         lambda s, r=r, y=y, c3=c3: (s.split()[1] != "undef" and len(set(s.split()[1:])) != 1) and ctx.fail(
+                             f"on_block:chain{op1}{op2}:value-differs", f"`{r}` with y={y}: before/after = {s[3:]} (c3={c3})", r, y=y, spec=s))
 
     # -- exhaustive 8-bit row: all right operands for one left operand -------------------
     def row8(self, kind, t, mk, site_of, ntf, chain=None):
@@ -373,8 +377,16 @@ class Plan:
                 if i.startswith("ok replace"):
                     self.judge(site_of, render(e), e, i, "ok undef")
 
-    def flush(self):
+    def flush(self, force=True):
+        """one driver process per flush (start-up costs seconds on a loaded machine): only the last
+        call and very large batches actually run"""
+        if not self.reqs or (not force and len(self.reqs) < 250000):
+            return
+        import time
+        t0 = time.time()
         out = self.ctx.driver("C38", self.reqs)
+        self.ctx.extra_cov["driver_s"] = round(self.ctx.extra_cov.get("driver_s", 0) + time.time() - t0, 1)
+        self.ctx.extra_cov["driver_requests"] = self.ctx.extra_cov.get("driver_requests", 0) + len(self.reqs)
         for sink, rep in zip(self.sinks, out):
             if rep == "bad-op":
                 raise common.BrokenCheck("driver answered bad-op")
@@ -401,6 +413,8 @@ CORPUS_CHAIN = [
 
 
 def check(ctx):
+    import time
+    t_check = time.time()
     real = Real()
     rng = ctx.rng
     P = Plan(ctx, real)
@@ -427,7 +441,7 @@ def check(ctx):
     for t, v, to in [("i8", -1, "u8"), ("u8", 255, "i8"), ("i8", -128, "u64"), ("u64", (1 << 64) - 1, "i8"), ("i32", -1, "u16"),
                      ("u16", 65535, "i64"), ("i64", -(1 << 63), "i32"), ("u32", 1 << 31, "i32")]:
         P.case("cast", ("k", to, C(t, v)), "eval_const:cast", True)
-    P.flush()
+    P.flush(force=False)
 
     # ---- 8-bit types: operand pairs ---------------------------------------------------------
     for t in ("i8", "u8"):
@@ -435,8 +449,8 @@ def check(ctx):
         if th:
             lefts = list(range(lo, hi + 1))
         else:
-            lefts = sorted(set(boundary(t)[::3] + [lo, lo + 1, -1 if lo < 0 else 1, 0, 1, 2, 3, 7, 100, hi - 1, hi]
-                               + list(range(lo + rng.randrange(11), hi + 1, 11)) + [rng.randint(lo, hi) for _ in range(6)]))
+            lefts = sorted(set([lo, lo + 1, -1 if lo < 0 else 1, 0, 1, 2, 3, 7, 100, hi - 1, hi, (lo + hi) // 2, -7 if lo < 0 else 249]
+                               + list(range(lo + rng.randrange(23), hi + 1, 23)) + [rng.randint(lo, hi) for _ in range(4)]))
             lefts = [v for v in lefts if lo <= v <= hi]
         for op in folder_ops:
             for a in lefts:
@@ -457,7 +471,7 @@ def check(ctx):
         for op in ("+", "-"):
             for c1, c2 in pairs:
                 P.chain(t, op, op, C(t, c1), C(t, c2), ysamples(t, 2))
-        P.flush()
+        P.flush(force=False)
     ctx.extra_cov["exhaustive"] = bool(th)
     ctx.extra_cov["exhaustive_domain"] = ("all 65536 operand pairs of i8 and of u8 for each of %s; all (c1,c2) for both chain rewrites" % folder_ops) if th \
         else "quick tier: strided left operands x all 256 right operands (not exhaustive)"
@@ -490,7 +504,7 @@ def check(ctx):
         for op1, op2 in (("+", "+"), ("-", "-"), ("+", "-"), ("-", "+"), ("*", "*"), ("+", "*")):
             for _ in range((120 if op1 == op2 and op1 in "+-" else 10) * mult):
                 P.chain(t, op1, op2, C(t, rv()), C(t, rv()), ysamples(t, 2))
-        P.flush()
+        P.flush(force=False)
 
     # ---- casts between every ordered pair of integer types -----------------------------------
     for src in TYPES:
@@ -501,7 +515,7 @@ def check(ctx):
             for v in vals:
                 P.case("cast", ("k", dst, C(src, v)), "eval_const:cast", not dl <= v <= dh)
     ctx.extra_cov["cast_type_pairs"] = len(TYPES) ** 2
-    P.flush()
+    P.flush(force=False)
 
     # ---- nested constant trees (eval_const recursion), chains with non-literal constants --------
     def tree(t, d):
@@ -533,6 +547,7 @@ def check(ctx):
                   ("b", t, "-", ("b", t, "-", c, y), c), ("k", t, y), ("b", t, "*", ("b", t, "*", y, c), c), ("b", t, "+", y, y)]:
             P.case("shape", e, "on_block:shape")
     P.flush()
+    ctx.extra_cov["check_s"] = round(time.time() - t_check, 1)
     ctx.extra_cov["folder_ops"] = folder_ops
     ctx.extra_cov["unfolded_ops_checked"] = other_ops
     ctx.extra_cov["nontrivial_8bit_cases"] = int(ctx.counts.get("nontrivial_8bit", 0))
